@@ -26,7 +26,24 @@ func main() {
 	replay := flag.String("replay", "", "replay file: re-run the rule of the recorded obligation")
 	manifest := flag.String("manifest", "", "write MANIFEST.json to this path and exit")
 	cpuprof := flag.String("cpuprofile", "", "write cpu profile")
+	bsurvey := flag.String("bsurvey", "", "debug: comma-separated packages (rel paths, root is \"\") to survey with the bounds engine")
 	flag.Parse()
+	if *bsurvey != "" {
+		prog, err := core.Load(core.LoadConfig{Dir: *repo})
+		if err != nil {
+			fmt.Println(err)
+			os.Exit(2)
+		}
+		pk := map[string]bool{}
+		for _, x := range strings.Split(*bsurvey, ",") {
+			if x == "root" {
+				x = ""
+			}
+			pk[x] = true
+		}
+		rules.BoundsSurvey(core.NewRun("C16", "quick", 0, prog), pk, true)
+		return
+	}
 	if *cpuprof != "" {
 		f, _ := os.Create(*cpuprof)
 		pprof.StartCPUProfile(f)
